@@ -83,9 +83,12 @@ def main():
         dst = os.path.join(VERIF, 'seeded', os.path.basename(seed))
         os.makedirs(dst, exist_ok=True)
         for f in ('patch.diff', 'demo.py'):
-            shutil.copy(os.path.join(seed, f), os.path.join(dst, f))
-        meta['confirmed'] = {k: out.get(k) for k in ('applies', 'baseline_ok', 'demo_on_repo', 'demo_on_patched')}
-        meta['checks_run'] = out['checks']
+            if os.path.abspath(seed) != os.path.abspath(dst):
+                shutil.copy(os.path.join(seed, f), os.path.join(dst, f))
+        conf = dict(meta.get('confirmed') or {})
+        conf.update({k: out[k] for k in ('applies', 'baseline_ok', 'demo_on_repo', 'demo_on_patched') if k in out})
+        meta['confirmed'] = conf
+        meta.setdefault('checks_run', {}).update(out['checks'])
         meta['what_was_run'] = ('tools/seed_check.py: patch applied in a scratch git worktree of /repo, pinned suite compared with '
                                 'the baseline, demo.py run on /repo and on the patched tree, checks run with VERIF_REPO=<worktree>')
         json.dump(meta, open(os.path.join(dst, 'meta.json'), 'w'), indent=1)
